@@ -50,7 +50,11 @@ def gen(rng, tier):
         cut = rng.randint(0, len(trajs[k]))
         yield {'trajs': trajs, 'lag': lag, 'S': S, 'F': F, 'perm': perm, 'cut': [k, cut], 'alpha': akind}
     for _ in range(G.budget(8) if tier == 'quick' else 200):       # arrays of different integer widths, narrow first, > 128 states
-        trajs, dtypes, tag = G.narrow_set(rng, rng.choice(['many-mixed', 'many-unsigned']))
+        trajs, dtypes, tag = G.narrow_set(rng, rng.choice(['many-mixed', 'many-unsigned', 'narrow-many', 'narrow-many', 'full-range']))
+        while len(trajs) < 3:                                  # the scenario below is written for three trajectories
+            trajs.append(list(trajs[0][len(trajs) * 7:len(trajs) * 7 + 60]))
+            dtypes.append(dtypes[0])
+        trajs, dtypes = trajs[:3], dtypes[:3]
         yield {'trajs': trajs, 'lag': rng.choice([1, 2]), 'S': [trajs[0][0]], 'F': [trajs[1][0] if trajs[1][0] != trajs[0][0] else trajs[1][1]],
                'perm': [1, 0, 2], 'cut': [1, len(trajs[1]) // 2], 'alpha': tag, 'dtypes': dtypes, 'light': True}
     for _ in range(G.budget(6) if tier == 'quick' else 120):      # several hundred trajectories / zero-length members / many states
